@@ -41,6 +41,26 @@ Correspondence streams (model = lean/Drv/C20.lean over Model.Schedule):
            and re-arms that schedule's timer); presentValue of EVERY schedule at every
            transition instant of every schedule (and one second later), at every
            write and on a 30-minute grid; many short runs (14..34 h)
+  repair   failure-and-repair histories (timer runs): a configuration on which the evaluation
+           RAISES (dangling calendar reference, priority 17, calendar entry / period with no
+           choice — all accepted by the write path and by _check_reliability) from the start
+           or written on the way, then a repairing write (whole exceptionSchedule, the ONE bad
+           element by array index, or adding the missing calendar object and writing
+           exceptionSchedule again); lockstep with the model through the failures, and from
+           the repair on the full staleness oracle
+  dst      (oracle only, no model: mktime/localtime outside UTC are not modelled) 1..3
+           schedules per run in worker processes whose TZ is UTC, EST5EDT (US rules),
+           CET-1CEST (EU rules) or AEST-10AEDT (southern hemisphere), run across a change-over
+           in either direction (85 %) or on ordinary days, entries and writes concentrated in
+           the small hours; presentValue at every wall-clock transition instant
+           (time.mktime of the full struct, tm_isdst=-1) and a second later, at local
+           midnights, on a 15-minute grid 3 h either side of the change, at writes, against
+           `ref_value` at the wall-clock reading time.localtime gives for that instant
+  All timer streams (run, multi, repair, dst) write whole properties AND by array index:
+  weeklySchedule[1..7], exceptionSchedule[i], exceptionSchedule[0] (resize), through
+  obj.WriteProperty(..., arrayIndex=i, direct=True) and through a WritePropertyRequest handed
+  to the application (ReadWritePropertyServices.do_WritePropertyRequest), scheduleDefault /
+  effectivePeriod also through the service.
 Implementation-side oracles (independent of the model):
   * `denotes`: the BACnet meaning of a date pattern written directly with
     datetime (weekday, last day of month by "tomorrow is another month")
@@ -56,7 +76,7 @@ Implementation-side oracles (independent of the model):
     two firings (every 5 min and around every entry time), the task is always
     re-armed strictly in the future and never later than the next midnight.
 """
-import calendar, datetime, json, os
+import calendar, datetime, json, os, time
 from . import core
 
 LEAN_TARGETS = ["BacVerif.Props.C20", "drv_c20"]
@@ -75,7 +95,10 @@ RULE = ("matchers: every day of a year x ~380 pattern classes (date: 15 month cl
 TRUSTED = ["lean/BacVerif/Model/Schedule.lean is a hand transcription of local/schedule.py (after the "
            "five C20 fix patches) and of Date.now/Time.now; tied by the cal/now/year/evalday/evalbad/run streams",
            "time.mktime / time.localtime under TZ=UTC are modelled by the model's own calendar (dayNum / civil) "
-           "and compared on every run; DST and other zones are not modelled",
+           "and compared on every run; DST and other zones are not modelled: the `dst` stream checks the real "
+           "interpreter there against the rule, trusting Python's/libc's time.localtime (instant -> wall clock) "
+           "and time.mktime (probe instants only); nothing is demanded of the value during the two passes of "
+           "the hour a backward change repeats (libc's choice for ambiguous times depends on its call history)",
            "LocalScheduleObject._check_reliability (type checks of the configuration) is not modelled: the "
            "harness reads `reliability` from the real object and the oracle demands noFaultDetected for every valid configuration",
            "the timer fires exactly at the installed deadline (C14); float seconds are compared after rounding to microseconds",
@@ -105,10 +128,29 @@ def env():
     vt = VT.install(start=0.0)
     from bacpypes.app import Application
     from bacpypes.local.device import LocalDeviceObject
+    from bacpypes.local.schedule import LocalScheduleObject
+    from bacpypes.service.object import ReadWritePropertyServices
+    from bacpypes.object import register_object_type, WritableProperty
+    from bacpypes.constructeddata import ArrayOf, AnyAtomic
+    from bacpypes.basetypes import DailySchedule, SpecialEvent, DateRange
+
+    class App(Application, ReadWritePropertyServices):
+        """no network below: responses of the services are collected"""
+
+    @register_object_type(vendor_id=999)
+    class WritableSchedule(LocalScheduleObject):
+        """LocalScheduleObject whose configuration can be written through the WriteProperty service"""
+        properties = [WritableProperty('weeklySchedule', ArrayOf(DailySchedule, 7)),
+                      WritableProperty('exceptionSchedule', ArrayOf(SpecialEvent)),
+                      WritableProperty('effectivePeriod', DateRange),
+                      WritableProperty('scheduleDefault', AnyAtomic)]
     dev = LocalDeviceObject(objectName="dev", objectIdentifier=('device', 1),
                             maxApduLengthAccepted=1024, segmentationSupported='segmentedBoth',
                             vendorIdentifier=999)
-    _env.update(vt=vt, app=Application(dev))
+    app = App(dev)
+    responses = []
+    app.response = responses.append
+    _env.update(vt=vt, app=app, sched_class=WritableSchedule, responses=responses)
     return _env
 
 
@@ -203,7 +245,7 @@ class Real_:
         self.cal_of_exc = {}
         for inst, entries, idx in self.cals:
             self.cal_of_exc[idx] = self._add_cal(inst, entries)
-        self.so = LocalScheduleObject(**kw)
+        self.so = e["sched_class"](**kw)
         self.app.add_object(self.so)
         self.objs.append(self.so)
 
@@ -261,18 +303,66 @@ class Real_:
         if self.reset:
             self.vt.reset(0.0)
 
-    def write_one(self, cur, new):
+    def service_write(self, prop, value, idx):
+        """the WriteProperty service path: a WritePropertyRequest handed to the application"""
+        from bacpypes.apdu import WritePropertyRequest, SimpleAckPDU
+        from bacpypes.constructeddata import Any
+        e = env()
+        req = WritePropertyRequest(objectIdentifier=self.so.objectIdentifier, propertyIdentifier=prop)
+        if idx is not None:
+            req.propertyArrayIndex = idx
+        req.propertyValue = Any()
+        req.propertyValue.cast_in(value)
+        req.pduSource = None
+        del e["responses"][:]
+        self.app.do_WritePropertyRequest(req)
+        if not e["responses"] or not isinstance(e["responses"][-1], SimpleAckPDU):
+            raise core.Infra("service write of %s[%r] refused: %r" % (prop, idx, e["responses"][-1:]))
+
+    def write_one(self, cur, new, how=None):
         """one property per write (the first that differs in the order exc, def, eff, weekly);
-        writing one that did not change re-evaluates as well"""
-        from bacpypes.primitivedata import Real
-        from bacpypes.basetypes import DateRange
+        writing one that did not change re-evaluates as well.  `how`: None = assign the whole
+        property; {"k": "wk"|"exc", "i": n} = ONE array element by index; {"k": "exc0", "n": len}
+        = resize through index 0; {"k": "whole"} = whole property; "path": "direct" =
+        obj.WriteProperty(..., direct=True), "service" = WritePropertyRequest;
+        {"k": "addcal", "l": entries} = create the calendar object a dangling reference names,
+        then write exceptionSchedule again with the same references"""
+        from bacpypes.primitivedata import Real, Unsigned
+        from bacpypes.basetypes import DateRange, DailySchedule
         so = self.so
+        if how is not None and how["k"] == "addcal":
+            self._add_cal(4000, how["l"])
+            so.exceptionSchedule = self.write(cur)
+            return
+        if how is not None and how["k"] in ("wk", "exc", "exc0"):
+            if how["k"] == "wk":
+                prop, idx = 'weeklySchedule', how["i"]
+                value = DailySchedule(daySchedule=mk_tvs(new["weekly"][idx - 1]))
+            elif how["k"] == "exc":
+                prop, idx = 'exceptionSchedule', how["i"]
+                value = self.write({"exc": [new["exc"][idx - 1]]})[1]
+            else:
+                prop, idx = 'exceptionSchedule', 0
+                value = how["n"] if how["path"] == "direct" else Unsigned(how["n"])
+            if how["path"] == "direct":
+                so.WriteProperty(prop, value, arrayIndex=idx, direct=True)
+            else:
+                self.service_write(prop, value, idx)
+            return
+        service = how is not None and how.get("path") == "service"
         if new["exc"] != cur["exc"]:
             so.exceptionSchedule = self.write(new)
         elif new["def"] != cur["def"]:
-            so.scheduleDefault = Real(float(new["def"]))
+            if service:
+                self.service_write('scheduleDefault', Real(float(new["def"])), None)
+            else:
+                so.scheduleDefault = Real(float(new["def"]))
         elif new["eff"] != cur["eff"]:
-            so.effectivePeriod = DateRange(startDate=tuple(new["eff"][0]), endDate=tuple(new["eff"][1]))
+            v = DateRange(startDate=tuple(new["eff"][0]), endDate=tuple(new["eff"][1]))
+            if service:
+                self.service_write('effectivePeriod', v, None)
+            else:
+                so.effectivePeriod = v
         else:
             so.weeklySchedule = mk_weekly(new["weekly"]) if new["weekly"] is not None else None
 
@@ -585,6 +675,7 @@ def run_years(ctx, years, label, focus=False):
 
 
 def shard_years(ctx, spec):
+    set_tz("UTC")
     env()
     run_years(ctx, spec, "year")
 
@@ -1121,6 +1212,7 @@ def run_real(case):
     ok = vt.run(until=start)
     rec("init")
     changes = list(case["changes"])
+    hows = list(case.get("hows") or [])
     cur = cfg
     for _ in range(case["fuel"]):
         if not ok:
@@ -1136,9 +1228,10 @@ def run_real(case):
             elif fire_at is not None or tc <= until:
                 ok = vt.run(until=tc)
                 new = changes.pop(0)[1]
+                how = hows.pop(0) if hows else None
                 e = None
                 try:
-                    real.write_one(cur, new)
+                    real.write_one(cur, new, how)
                 except Exception as ex:
                     e = exc_kind(ex)
                 cur = new
@@ -1196,6 +1289,10 @@ def oracle_run(ctx, case, steps, fault):
         return
     cfg = case["cfg"]
     changes = list(case["changes"])
+    # failure-and-repair histories: what happens before the repairing write is the model's
+    # business (correspondence); from the repair on the schedule must be right at every instant
+    repair_at = case.get("repair_at")
+    repaired = repair_at is None
     for i, st in enumerate(steps):
         kind, t, pv, dl, err = st
         if kind == "overrun":
@@ -1203,7 +1300,11 @@ def oracle_run(ctx, case, steps, fault):
                      "(virtual clock stuck at %s)" % (split_us(t),), step=i)
             return
         if kind == "chg":
-            cfg = changes.pop(0)[1]
+            tc, cfg = changes.pop(0)
+            if tc == repair_at:
+                repaired = True
+        if not repaired:
+            continue
         if err is not None:
             ctx.fail("task-raised", where, "process_task raised %s at %s; the schedule is not re-armed" % (
                 err, split_us(t)), step=i, err=err)
@@ -1234,6 +1335,8 @@ def oracle_run(ctx, case, steps, fault):
                 ctx.fail("stale", where, "at %s %r presentValue is %r, BACnet prescribes %r (last evaluation at %s)" % (
                     d.isoformat(), tm, pv, want, split_us(t)), step=i)
                 return
+    if not repaired:
+        ctx.fail("repair-not-applied", where, "the repairing write at %s never happened" % (split_us(repair_at),))
     if steps and steps[-1][3] is not None and steps[-1][3] <= case["until"] and len(steps) < case["fuel"]:
         ctx.fail("stopped", where, "run ended with a due deadline still pending", step=len(steps) - 1)
 
@@ -1260,42 +1363,69 @@ def gen_run(rng, quick):
     start_s = rng.choice([0, rng.randrange(86400), rng.randrange(86400), 86399])
     start = (day0 * 86400 + start_s) * 1000000 + rng.choice([0, 0, 500000, 290000])
     until = (day0 + ndays) * 86400 * 1000000 + rng.randrange(0, 86400) * 1000000
-    changes = gen_changes(rng, cfg, focus, ndays, start, until, dd) if rng.random() < 0.4 else []
+    changes, hows = gen_changes(rng, cfg, focus, ndays, start, until, dd, n=rng.choice([1, 2, 2, 3])) \
+        if rng.random() < 0.5 else ([], [])
     return {"op": "run", "cfg": cfg, "start": start, "until": until, "pv0": PV0,
-            "fuel": 400, "changes": changes}
+            "fuel": 400, "changes": changes, "hows": hows}
 
 
 def gen_changes(rng, cfg, focus, ndays, start, until, dd, n=None):
-    changes = []
-    if True:
-        cur = cfg
-        for _ in range(n or rng.randrange(1, 3)):
-            tc = rng.randrange(start // 1000000 + 1, until // 1000000) * 1000000 + 500000
-            new = json.loads(json.dumps(cur))
-            other = gen_cfg(rng, focus + datetime.timedelta(days=rng.randrange(0, ndays)), span=ndays)
-            r2 = rng.random()
-            if r2 < 0.3 and other["weekly"] is not None:
-                new["weekly"] = other["weekly"]
-            elif r2 < 0.6:
-                new["exc"] = other["exc"] if other["exc"] is not None else []
-            elif r2 < 0.8:
-                new["def"] = rng.choice([d for d in (0, 1, 2, 3) if d != cur["def"]])
+    """writes at random instants, in time order, each replacing ONE property of the configuration
+    before it — the whole property, ONE array element by index, or a resize through index 0.
+    returns (changes [[t, cfg after]], hows [None | how])"""
+    times = sorted(set(rng.randrange(start // 1000000 + 1, until // 1000000) * 1000000 + 500000
+                       for _ in range(n or rng.randrange(1, 3))))
+    changes, hows = [], []
+    cur = cfg
+    for tc in times:
+        new = json.loads(json.dumps(cur))
+        how = None
+        path = rng.choice(["direct", "service"])
+        other = gen_cfg(rng, focus + datetime.timedelta(days=rng.randrange(0, ndays)), span=ndays)
+        r2 = rng.random()
+        if r2 < 0.35 and other["weekly"] is not None:
+            if cur["weekly"] and len(cur["weekly"]) == 7 and rng.random() < 0.7:
+                today = tc // (86400 * 1000000) % 7 + 1
+                i = rng.choice([today, today, today % 7 + 1, rng.randrange(1, 8)])
+                new["weekly"][i - 1] = gen_tvs(rng, rng.randrange(1, 5), 100 + 10 * (i - 1) + 5)
+                how = {"k": "wk", "i": i, "path": path}
             else:
-                new["eff"] = rng.choice([other["eff"], [list(OPEN), list(OPEN)], [dd(rng.randrange(0, ndays)), list(OPEN)],
-                                         [list(OPEN), dd(rng.randrange(0, ndays))]])
-            changes.append([tc, new])
-            cur = new
-        changes.sort(key=lambda c: c[0])
-        # distinct instants; the configurations are chained in time order by fix_chain
-        changes = [c for i, c in enumerate(changes) if i == 0 or c[0] != changes[i - 1][0]]
-    return changes
+                new["weekly"] = other["weekly"]
+        elif r2 < 0.65:
+            oexc = other["exc"] or []
+            if cur["exc"] and rng.random() < 0.7:
+                if rng.random() < 0.7:
+                    i = rng.randrange(1, len(cur["exc"]) + 1)
+                    new["exc"][i - 1] = rng.choice(oexc) if oexc and rng.random() < 0.5 else {
+                        "p": {"k": "entry", "e": {"k": "date", "p": list(OPEN)}},
+                        "tv": gen_tvs(rng, rng.randrange(1, 4), 1000 + 10 * (i - 1) + 5), "prio": rng.choice([1, 5, 7, 16])}
+                    how = {"k": "exc", "i": i, "path": path}
+                else:
+                    nlen = rng.randrange(0, len(cur["exc"]))
+                    new["exc"] = cur["exc"][:nlen]
+                    how = {"k": "exc0", "n": nlen, "path": path}
+            else:
+                new["exc"] = oexc
+        elif r2 < 0.8:
+            new["def"] = rng.choice([d for d in (0, 1, 2, 3) if d != cur["def"]])
+            how = {"k": "whole", "path": path}
+        else:
+            new["eff"] = rng.choice([other["eff"], [list(OPEN), list(OPEN)], [dd(rng.randrange(0, ndays)), list(OPEN)],
+                                     [list(OPEN), dd(rng.randrange(0, ndays))]])
+            how = {"k": "whole", "path": path}
+        changes.append([tc, new]); hows.append(how)
+        cur = new
+    return changes, hows
 
 
 def fix_chain(case):
     """each change replaces ONE property of the configuration before it"""
     cur = case["cfg"]
-    for c in case["changes"]:
+    for c, how in zip(case["changes"], case.get("hows") or [None] * len(case["changes"])):
         new = c[1]
+        if how is not None and how["k"] == "addcal":
+            cur = new
+            continue
         keys = ["exc", "def", "eff", "weekly"]             # the order run_real looks for the difference
         first = next((k for k in keys if new[k] != cur[k]), "weekly")
         for k in keys:
@@ -1314,6 +1444,63 @@ def sig_run(case, m):
     return (shape, kinds, org, min(len(steps) // 8, 5))
 
 
+def gen_repair_run(rng):
+    """failure-and-repair history: a configuration on which the evaluation RAISES (dangling
+    calendar reference, priority 17, a calendar entry / period with no choice set — all accepted
+    by the write path and by _check_reliability), either from the start or written on the way,
+    then a repairing write (whole exceptionSchedule, the ONE bad element by index, or adding the
+    missing calendar object and writing exceptionSchedule again)"""
+    case = gen_run(rng, True)
+    case["changes"], case["hows"] = [], []
+    cfg = case["cfg"]
+    if rng.random() < 0.7:
+        cfg["eff"] = [list(OPEN), list(OPEN)]       # outside the period nothing is looked at, nothing raises
+    start, until = case["start"], min(case["until"], case["start"] + 3 * 86400 * 1000000)
+    case["until"] = until
+    kind = rng.choice(["dangling", "dangling", "prio17", "empty", "missing"])
+    bad_se = {"tv": gen_tvs(rng, rng.randrange(1, 4), 1900), "prio": rng.choice([1, 5, 16]),
+              "p": {"dangling": {"k": "ref", "l": None},
+                    "prio17": {"k": "entry", "e": {"k": "date", "p": list(OPEN)}},
+                    "empty": {"k": "entry", "e": {"k": "empty"}},
+                    "missing": {"k": "missing"}}[kind]}
+    if kind == "prio17":
+        bad_se["prio"] = 17
+    good = list(cfg["exc"] or [])[:3]
+    pos = rng.randrange(0, len(good) + 1)
+    bad = json.loads(json.dumps(cfg))
+    bad["exc"] = good[:pos] + [bad_se] + good[pos:]
+    cfg["exc"] = good
+    span = (until - start) // 1000000
+    t1 = start + rng.randrange(1, max(2, span // 3)) * 1000000 + 500000
+    t2 = t1 + rng.randrange(1, max(2, span // 3)) * 1000000
+    # the repair
+    fixed = json.loads(json.dumps(bad))
+    r = rng.random()
+    if kind == "dangling" and r < 0.5:
+        entries = rng.choice([[{"k": "date", "p": list(OPEN)}], [], [gen_entry(rng, D1900 + datetime.timedelta(days=start // (86400 * 1000000)))]])
+        fixed["exc"][pos]["p"] = {"k": "ref", "l": entries}
+        how = {"k": "addcal", "l": entries}
+    elif r < 0.75:
+        fixed["exc"][pos] = {"p": {"k": "entry", "e": {"k": "date", "p": list(OPEN)}},
+                             "tv": bad_se["tv"], "prio": rng.choice([1, 5, 16])}
+        how = {"k": "exc", "i": pos + 1, "path": rng.choice(["direct", "service"])}
+    else:
+        fixed["exc"] = good if rng.random() < 0.5 else good + [{"p": {"k": "entry", "e": {"k": "date", "p": list(OPEN)}},
+                                                                "tv": bad_se["tv"], "prio": 2}]
+        how = None
+    if rng.random() < 0.5:
+        # bad from the start (the deferred first evaluation fails), repaired at t1
+        case["cfg"] = bad
+        case["changes"], case["hows"] = [[t1, fixed]], [how]
+        case["repair_at"] = t1
+    else:
+        # valid, a write that makes the evaluation raise at t1, repaired at t2
+        case["changes"], case["hows"] = [[t1, bad], [t2, fixed]], [None, how]
+        case["repair_at"] = t2
+    case["kind"] = kind
+    return case
+
+
 def gen_bad_run(rng):
     """timer run of a malformed configuration: correspondence of the error paths only"""
     day0 = rng.randrange(25567 + 365, 92000)
@@ -1324,9 +1511,10 @@ def gen_bad_run(rng):
             "fuel": 400, "changes": [], "kind": kind}
 
 
-def run_runs(ctx, rng, n, label="run", cases=None, bad=False):
+def run_runs(ctx, rng, n, label="run", cases=None, bad=False, repair=False):
     if cases is None:
-        cases = [gen_bad_run(rng) if bad else fix_chain(gen_run(rng, ctx.quick)) for _ in range(n)]
+        cases = [gen_bad_run(rng) if bad else gen_repair_run(rng) if repair else fix_chain(gen_run(rng, ctx.quick))
+                 for _ in range(n)]
     impl = []
     for c in cases:
         a, fault = run_real(c)
@@ -1339,7 +1527,9 @@ def run_runs(ctx, rng, n, label="run", cases=None, bad=False):
         ctx.compare_stream(label, cases, impl, core.Driver("drv_c20").ask(cases),
                            sig=(lambda c, m: (c["kind"], c["cfg"]["fault"], tuple(sorted(set(
                                str(st[4]) for st in m.get("steps") or [])))))
-                           if bad else sig_run)
+                           if bad else (lambda c, m: ("repair", c.get("kind"), len(c["changes"]),
+                                                      (c.get("hows") or [None])[-1] and c["hows"][-1]["k"]) + sig_run(c, m)[1:3])
+                           if cases and "repair_at" in cases[0] else sig_run)
     else:
         for c in cases:
             ctx.count(label)
@@ -1371,10 +1561,10 @@ def gen_multi(rng):
             cfg["weekly"] = [gen_tvs(rng, rng.randrange(2, 5), 100 + 10 * i) for i in range(7)]
         if rng.random() < 0.7:
             cfg["eff"] = [list(OPEN), list(OPEN)]
-        changes = gen_changes(rng, cfg, focus, ndays, start, until, dd, n=rng.choice([1, 1, 2, 3])) \
-            if rng.random() < 0.6 else []
+        changes, hows = gen_changes(rng, cfg, focus, ndays, start, until, dd, n=rng.choice([1, 1, 2, 3])) \
+            if rng.random() < 0.6 else ([], [])
         c = fix_chain({"op": "pvat", "cfg": cfg, "start": start, "until": until, "pv0": PV0,
-                       "fuel": 2000, "changes": changes})
+                       "fuel": 2000, "changes": changes, "hows": hows})
         scheds.append(c)
     timers = []
     for _ in range(rng.randrange(4, 13)):
@@ -1410,7 +1600,7 @@ def multi_probes(case):
     return sorted(p for p in out if start < p <= until)
 
 
-def run_multi_real(case):
+def run_multi_real(case, probes=None):
     """returns (pv[k][j] of schedule k at probe j, overdue = first (probe, k, deadline) at which a
     schedule's timer was still pending although its time had come, faults)"""
     from bacpypes.task import OneShotTask
@@ -1420,7 +1610,7 @@ def run_multi_real(case):
     vt.reset(start)
     reals = [Real_(sc["cfg"], start, inst=k + 1, reset=False) for k, sc in enumerate(case["scheds"])]
     faults = [k for k, r in enumerate(reals) if r.so.reliability != 'noFaultDetected']
-    probes = multi_probes(case)
+    probes = probes if probes is not None else multi_probes(case)
 
     class Other(OneShotTask):
         def process_task(self):
@@ -1431,8 +1621,8 @@ def run_multi_real(case):
         events[p].append(("probe", j))
     for k, sc in enumerate(case["scheds"]):
         cur = sc["cfg"]
-        for tc, new in sc["changes"]:
-            events[tc].append(("write", k, cur, new))
+        for (tc, new), how in zip(sc["changes"], sc.get("hows") or [None] * len(sc["changes"])):
+            events[tc].append(("write", k, cur, new, how))
             cur = new
     for i, tm in enumerate(case["timers"]):
         events[tm["at"]].append(("install", i))
@@ -1448,7 +1638,7 @@ def run_multi_real(case):
             break
         acts = sorted(events[x], key=lambda a: {"install": 0, "cancel": 1, "write": 2, "probe": 3}[a[0]])
         if x > case["start"]:
-            ok = vt.run(until=(x - OFFSET_US) / 1e6, max_loops=50000)
+            ok = vt.run(until=(x - OFFSET_US) / 1e6, max_loops=4000)
         for a in acts:
             if a[0] == "install":
                 others[a[1]].install_task((case["timers"][a[1]]["when"] - OFFSET_US) / 1e6)
@@ -1457,7 +1647,7 @@ def run_multi_real(case):
                     others[a[1]].suspend_task()
             elif a[0] == "write":
                 try:
-                    reals[a[1]].write_one(a[2], a[3])
+                    reals[a[1]].write_one(a[2], a[3], a[4])
                 except Exception as ex:
                     vt.errors.append((type(ex).__name__, str(ex)))
             else:
@@ -1492,8 +1682,10 @@ def cfg_at(sc, x):
     return cfg
 
 
-def oracle_multi(ctx, case, pv, probes, overdue, faults, errors, ok):
-    where = {"stream": "multi", "case": case}
+def oracle_multi(ctx, case, pv, probes, overdue, faults, errors, ok, stream="multi", split=None,
+                 skip=None, kind="stale-multi", **fields):
+    where = {"stream": stream, "case": case}
+    split = split or split_us
     if faults:
         ctx.fail("valid-config-flagged", where, "schedule %d: a valid configuration is flagged faulty" % (faults[0] + 1))
         return
@@ -1512,7 +1704,9 @@ def oracle_multi(ctx, case, pv, probes, overdue, faults, errors, ok):
             cache[key] = ref_day(sc["cfg"] if ver == 0 else sc["changes"][ver - 1][1], d)
         return cache[key]
     for j, x in enumerate(probes):
-        d, tm = split_us(x)
+        if skip is not None and skip(x):
+            continue
+        d, tm = split(x)
         for k, sc in enumerate(case["scheds"]):
             if pv[k][j] is None:
                 continue
@@ -1520,16 +1714,18 @@ def oracle_multi(ctx, case, pv, probes, overdue, faults, errors, ok):
             if want is None or want == "out":
                 continue
             if pv[k][j] != want:
-                ctx.fail("stale-multi", where,
+                ch = case.get("change")
+                in_shadow = bool(ch) and ch[1] > 0 and ch[0] <= x < ch[0] + ch[1] * 1000000
+                ctx.fail(kind + ("-gap" if in_shadow else ""), where,
                          "at %s %r schedule %d of %d shows %r, its configuration prescribes %r" % (
                              d.isoformat(), tm, k + 1, len(case["scheds"]), pv[k][j], want),
-                         schedule=k + 1, probe=x)
+                         schedule=k + 1, probe=x, **fields)
                 return
     if overdue is not None:
         j, k, w = overdue
         ctx.fail("timer-overdue", where,
                  "at %s the timer of schedule %d, due at %s, is still pending: the task manager slept past it" % (
-                     split_us(probes[j]), k + 1, split_us(w)), schedule=k + 1, probe=probes[j])
+                     split(probes[j]), k + 1, split(w)), schedule=k + 1, probe=probes[j], **fields)
 
 
 def run_multi(ctx, rng, n, label="multi", cases=None, model_for=30):
@@ -1559,6 +1755,175 @@ def run_multi(ctx, rng, n, label="multi", cases=None, model_for=30):
         ctx.sample({"stream": label, "schedules": len(cases[0]["scheds"]), "timers": cases[0]["timers"][:3],
                     "writes": sum(len(sc["changes"]) for sc in cases[0]["scheds"]),
                     "probes": len(multi_probes(cases[0]))})
+
+
+# ---------------------------------------------------------------- daylight saving time
+
+ZONES = ["UTC", "EST5EDT,M3.2.0,M11.1.0", "CET-1CEST,M3.5.0,M10.5.0/3", "AEST-10AEDT,M10.1.0,M4.1.0/3"]
+_zc = {}
+
+
+def set_tz(zone):
+    os.environ["TZ"] = zone
+    time.tzset()
+
+
+def zone_changes(year):
+    """[(instant in unix seconds, change of the UTC offset in seconds)] of the current zone"""
+    key = (os.environ.get("TZ"), year)
+    if key not in _zc:
+        t = int(time.mktime((year, 1, 1, 0, 0, 0, 0, 0, -1)))
+        end = int(time.mktime((year + 1, 1, 1, 0, 0, 0, 0, 0, -1)))
+        out, prev = [], time.localtime(t).tm_gmtoff
+        while t < end:
+            off = time.localtime(t + 3600).tm_gmtoff
+            if off != prev:
+                lo, hi = t, t + 3600
+                while hi - lo > 1:
+                    mid = (lo + hi) // 2
+                    if time.localtime(mid).tm_gmtoff == prev:
+                        lo = mid
+                    else:
+                        hi = mid
+                out.append((hi, off - prev))
+                prev = off
+            t += 3600
+        _zc[key] = out
+    return _zc[key]
+
+
+def split_local(x):
+    """an instant (µs since 1900 UTC) as the local wall clock shows it — Python's/libc's zone
+    arithmetic (time.localtime), independent of datetime_to_time"""
+    sec, us = divmod(x - OFFSET_US, 1000000)
+    lt = time.localtime(sec)
+    return datetime.date(lt.tm_year, lt.tm_mon, lt.tm_mday), (lt.tm_hour, lt.tm_min, lt.tm_sec, us // 10000)
+
+
+def gen_dst(rng, zone):
+    """1..3 schedules in a zone with daylight saving, run across a change-over (either direction),
+    entries and writes concentrated in the small hours"""
+    year = rng.randrange(1972, 2100)
+    ch = zone_changes(year)
+    if ch and rng.random() < 0.85:
+        c, delta = rng.choice(ch)
+        start = c - rng.randrange(2 * 3600, 30 * 3600)
+        until = c + rng.randrange(3 * 3600, 40 * 3600)
+    else:
+        c, delta = None, 0
+        start = int(time.mktime((year, rng.randrange(1, 13), rng.randrange(1, 28), rng.randrange(24), 0, 0, 0, 0, -1)))
+        until = start + rng.randrange(20 * 3600, 40 * 3600)
+    lt = time.localtime(c if c is not None else start)
+    focus = datetime.date(lt.tm_year, lt.tm_mon, lt.tm_mday)
+    start_us, until_us = start * 1000000 + OFFSET_US, until * 1000000 + OFFSET_US
+
+    def dd(k):
+        x = focus + datetime.timedelta(days=k - 1)
+        return [x.year - 1900, x.month, x.day, 255]
+
+    def small_hours(nn, base):
+        ts = sorted([rng.randrange(0, 5), rng.choice([0, 15, 30, 45, rng.randrange(60)]), 0, 0] if rng.random() < 0.6
+                    else gen_time(rng) for _ in range(nn))
+        return [[t, None if rng.random() < 0.2 else base + j] for j, t in enumerate(ts)]
+    scheds = []
+    for k in range(rng.randrange(1, 4)):
+        cfg = gen_cfg(rng, focus, span=2)
+        cfg["weekly"] = [small_hours(rng.randrange(2, 6), 100 + 10 * i) for i in range(7)]
+        if rng.random() < 0.8:
+            cfg["eff"] = [list(OPEN), list(OPEN)]
+        for se in cfg["exc"] or []:
+            if rng.random() < 0.5:
+                se["tv"] = small_hours(rng.randrange(1, 4), se["tv"][0][1] if se["tv"] and se["tv"][0][1] else 1990)
+        changes, hows = ([], [])
+        if rng.random() < 0.6:
+            changes, hows = gen_changes(rng, cfg, focus, 2, start_us, until_us, dd, n=rng.choice([1, 2, 3]))
+            if c is not None and changes and rng.random() < 0.7:
+                # one of the writes in the critical hours around the change
+                tcs = sorted(set([ch_[0] for ch_ in changes[1:]] +
+                                 [(c + rng.randrange(-3600, 2 * 3600)) * 1000000 + OFFSET_US + 500000]))
+                tcs = [t for t in tcs if start_us < t < until_us]
+                if len(tcs) == len(changes):
+                    for ch_, t in zip(changes, tcs):
+                        ch_[0] = t
+        scheds.append(fix_chain({"op": "pvat", "cfg": cfg, "start": start_us, "until": until_us, "pv0": PV0,
+                                 "fuel": 2000, "changes": changes, "hows": hows}))
+    return {"tz": zone, "start": start_us, "until": until_us, "scheds": scheds, "timers": [],
+            "change": None if c is None else [c * 1000000 + OFFSET_US, delta]}
+
+
+def dst_probes(case):
+    """every wall-clock transition instant of every schedule on every local date of the run
+    (time.mktime of the full struct, tm_isdst=-1) and a second later, local midnights, a 15-minute
+    grid for three hours either side of the change-over, every write (+1 s), a 30-minute grid"""
+    start, until = case["start"], case["until"]
+    out = set()
+    tods = {(0, 0, 0, 0)}
+    for sc in case["scheds"]:
+        for cfg in [sc["cfg"]] + [c[1] for c in sc["changes"]]:
+            for l in list(cfg["weekly"] or []) + [se["tv"] for se in (cfg["exc"] or [])]:
+                tods.update(tuple(t) for t, _v in l)
+        for tc, _c in sc["changes"]:
+            out.update((tc, tc + 1000000))
+    d = split_local(start)[0]
+    last = split_local(until)[0]
+    while d <= last:
+        for (h, mi, sec, hs) in tods:
+            x = int(time.mktime((d.year, d.month, d.day, h, mi, sec, 0, 0, -1))) * 1000000 + hs * 10000 + OFFSET_US
+            out.update((x, x + 1000000))
+        d += datetime.timedelta(days=1)
+    if case["change"]:
+        c = case["change"][0]
+        out.update(c + k * 900 * 1000000 for k in range(-12, 13))
+        out.update((c - 1000000, c + 1000000))
+    x = (start // (1800 * 1000000) + 1) * 1800 * 1000000
+    while x <= until:
+        out.add(x); x += 1800 * 1000000
+    return sorted(p for p in out if start < p <= until)
+
+
+def run_dst(ctx, cases, label="dst"):
+    for case in cases:
+        prev = os.environ.get("TZ", "UTC")
+        set_tz(case["tz"])
+        try:
+            probes = dst_probes(case)
+            pv, probes, overdue, faults, errors, ok = run_multi_real(case, probes)
+            skip, kind = None, "stale-dst"
+            if case["change"] and case["change"][1] < 0:
+                # the wall clock shows one hour twice.  Which reading a schedule should follow there
+                # is not defined, and which of the two instants libc's mktime(tm_isdst=-1) picks for
+                # a time in that hour depends on its previous calls (observed: the same schedule is
+                # armed for 01:30 EDT in one process history and 01:30 EST in another).  Nothing is
+                # demanded of the VALUE during both passes of the repeated hour; spinning, raising,
+                # overdue timers are still looked at, and from the end of the second pass on the
+                # value must be right again
+                w = -case["change"][1] * 1000000
+                c0, c1 = case["change"][0] - w, case["change"][0] + w
+                skip = lambda x: c0 <= x < c1
+            oracle_multi(ctx, case, pv, probes, overdue, faults, errors, ok, stream="dst", split=split_local,
+                         skip=skip, kind=kind, tz=case["tz"],
+                         change=case["change"] and ("forward" if case["change"][1] > 0 else "back"))
+            zname = case["tz"].split(",")[0]
+            ctx.count(label, (zname, 0 if not case["change"] else (1 if case["change"][1] > 0 else -1),
+                              min(sum(len(sc["changes"]) for sc in case["scheds"]), 3)),
+                      n=len(probes) * len(case["scheds"]))
+        finally:
+            set_tz(prev)
+    if cases:
+        ctx.sample({"stream": label, "tz": cases[0]["tz"], "change": cases[0]["change"],
+                    "schedules": len(cases[0]["scheds"])})
+
+
+def shard_dst(ctx, spec):
+    """one worker process per zone: the process-wide TZ is set there, never in the main process"""
+    env()
+    zone, idx, n = spec
+    set_tz(zone)
+    try:
+        rng = ctx.sub_rng("dst-%s-%d" % (zone, idx))
+        run_dst(ctx, [gen_dst(rng, zone) for _ in range(n)])
+    finally:
+        set_tz("UTC")
 
 
 # ---------------------------------------------------------------- corpus, shards, entry points
@@ -1601,11 +1966,14 @@ def replay_case(ctx, w, label):
         run_runs(ctx, None, 0, label=label, cases=[case])
     elif stream == "multi":
         run_multi(ctx, None, 0, label=label, cases=[case])
+    elif stream == "dst":
+        run_dst(ctx, [case], label=label)
     else:
         raise core.Infra("unknown corpus stream %r" % stream)
 
 
 def shard_eval(ctx, spec):
+    set_tz("UTC")
     env()
     kind, idx, n = spec
     rng = ctx.sub_rng("shard-%s-%d" % (kind, idx))
@@ -1617,6 +1985,8 @@ def shard_eval(ctx, spec):
         run_runs(ctx, rng, n, label="runbad", bad=True)
     elif kind == "multi":
         run_multi(ctx, rng, n)
+    elif kind == "repair":
+        run_runs(ctx, rng, n, label="repair", repair=True)
     else:
         run_runs(ctx, rng, n)
 
@@ -1630,11 +2000,13 @@ def run(ctx):
         run_now(ctx, rng)
         run_years(ctx, [(ctx.seed * 37 + 100) % 255], "year")
         run_years(ctx, list(range(255)), "year-monthlen", focus=True)
-        run_evalday(ctx, rng, 60, 2)
+        run_evalday(ctx, rng, 50, 2)
         run_evalbad(ctx, rng, 120)
         run_runs(ctx, rng, 60)
         run_runs(ctx, rng, 40, label="runbad", bad=True)
+        run_runs(ctx, ctx.sub_rng("c20-repair"), 50, label="repair", repair=True)
         run_multi(ctx, ctx.sub_rng("c20-multi"), 160)
+        core.run_shards(ctx, "harness.c20", "shard_dst", [(z, 0, 30) for z in ZONES])
     else:
         run_cal(ctx, list(range(255)))
         run_now(ctx, rng)
@@ -1642,7 +2014,8 @@ def run(ctx):
         core.run_shards(ctx, "harness.c20", "shard_years", [years[i::32] for i in range(32)])
         specs = [("evalday", i, 150) for i in range(32)] + [("evalbad", i, 400) for i in range(8)] + \
                 [("run", i, 200) for i in range(32)] + [("runbad", i, 300) for i in range(8)] + \
-                [("multi", i, 120) for i in range(32)]
+                [("multi", i, 120) for i in range(32)] + [("repair", i, 200) for i in range(8)]
+        core.run_shards(ctx, "harness.c20", "shard_dst", [(z, i, 150) for i in range(4) for z in ZONES])
         core.run_shards(ctx, "harness.c20", "shard_eval", specs)
         ctx.exhaustive = True
         ctx.extra["exhaustive_years"] = "1900..2154 x every pattern class"
@@ -1656,6 +2029,8 @@ def search(ctx):
     run_evalday(ctx, rng, 300, 3, label="search-evalday")
     run_runs(ctx, rng, 200, label="search-run")
     run_multi(ctx, rng, 150, label="search-multi")
+    run_runs(ctx, rng, 100, label="search-repair", repair=True)
+    core.run_shards(ctx, "harness.c20", "shard_dst", [(z, 9, 60) for z in ZONES])
 
 
 def replay(ctx, payload):
